@@ -41,3 +41,8 @@ Definition bool_z (b : bool) : Z := if b then 1 else 0.
 (* all pairs / triples of finite ranges, for complete finite evaluation *)
 Definition forall2b (xs ys : list Z) (f : Z -> Z -> bool) : bool :=
   forallb (fun x => forallb (fun y => f x y) ys) xs.
+
+(* digest used by the correspondence harness to compare long octet strings *)
+Definition dgst (l : list Z) : Z := fold_left (fun a x => Z.land (a * 31 + x + 1) 1073741823) l 7.
+Definition dg (l : list Z) : Z * Z := (lenZ l, dgst l).
+Definition odg (o : option (list Z)) : option (Z * Z) := option_map dg o.
